@@ -71,11 +71,13 @@ def hygiene():
 
 
 def audit_module(relpath):
-    """Elaborate a Props file and collect `#print axioms` output.
-    Returns (ok, {theorem: [axioms]}, n_expected, raw_output)."""
+    """Build a Props/Tie module with lake (cached logs are replayed, so an unchanged module costs
+    nothing) and collect its `#print axioms` output.
+    Returns (ok, {theorem: [axioms]}, expected theorem names, raw output)."""
     src = open(os.path.join(LEAN, relpath)).read()
     expected = re.findall(r"^#print axioms\s+(\S+)", src, flags=re.M)
-    rc, out = sh(["lake", "env", "lean", relpath], cwd=LEAN, timeout=3000)
+    module = relpath[:-5].replace("/", ".")
+    rc, out = sh(["lake", "build", module], cwd=LEAN, timeout=3000)
     got = {}
     for m in re.finditer(r"'([^']+)' depends on axioms: \[([^\]]*)\]", out, flags=re.S):
         got[m.group(1)] = [a.strip() for a in m.group(2).replace("\n", " ").split(",") if a.strip()]
